@@ -95,7 +95,7 @@ def assignments(leaves, rng=None, limit=64):
         if hi - lo <= 4:
             doms.append(list(range(lo, hi + 1)))
         else:
-            doms.append(sorted({lo, lo + 1, -1, 0, 1, hi - 1, hi} & set(range(lo, hi + 1))))
+            doms.append(sorted(x for x in {lo, lo + 1, -1, 0, 1, hi - 1, hi} if lo <= x <= hi))
     total = 1
     for d in doms:
         total *= len(d)
@@ -151,3 +151,42 @@ def well_defined(model):
                 walk(c)
     walk(model)
     return ok
+
+
+def rebuild(node, bmap=None, idmap=None, dvalue=None):
+    """structure preserving copy of a model as plain AtLeast nodes (same ids, signs, values, bounds), with leaf bounds
+    mapped through bmap and ids through idmap -- used to build near-identical variants of one model"""
+    import puan
+    import puan.logic.plog as pg
+    bmap = bmap or {}
+    idmap = idmap or (lambda s: s)
+
+    def go(n, top):
+        if is_var(n):
+            b = tuple(n.bounds.as_tuple())
+            return puan.variable(idmap(n.id), bmap.get(b, b))
+        kids = [go(c, False) for c in n.propositions]
+        val = n.value + (dvalue if (dvalue and top) else 0)
+        return pg.AtLeast(val, kids, variable=puan.variable(idmap(n.id), tuple(n.bounds.as_tuple())), sign=int(n.sign))
+    return go(node, True)
+
+
+VARIANTS = [
+    ("plain", {}, None),
+    ("colliding-bounds-1", {(1, 2): (0, 3), (-1, 0): (-2, 0), (0, 1): (0, 1), (-2, 0): (-1, 0)}, None),
+    ("colliding-bounds-2", {(0, 3): (1, 2), (-2, 2): (-1, 1), (-3, -1): (-2, -2)}, None),
+    ("ids-without-spaces", {}, lambda s: s.replace(" ", "") if isinstance(s, str) else s),
+]
+
+
+def variants(model):
+    """near-identical validated variants of a model, to be queried one after the other in one process"""
+    out = []
+    for name, bmap, idmap in VARIANTS:
+        try:
+            v = rebuild(model, bmap, idmap)
+        except Exception:
+            continue
+        if v.errors() == [] and well_defined(v):
+            out.append((name, v))
+    return out
